@@ -3,7 +3,11 @@
 
 A *case* is a fault plan (`happysimulator/faults/*`), a workload of generator jobs and network
 probes, and the configured ("base") settings of the network links and of one `Resource`.
-Entities are numbered: workers `0 … n-1`, the `Network` entity is `n`.
+Entities are numbered: workers `0 … n-1`, the `Network` entities are `n … n+nets-1`.  Every network
+connects the same workers with its own links; inside the partition / latency / loss state, worker `a`
+*as an endpoint on network `k`* is the node `vid k a = a + k * STRIDE`, so that the networks'
+states are disjoint parts of one table (a fault applied to the wrong network shows up on that
+network's nodes).
 
 The engine is not modelled here: the model is driven by the *schedule* of processed events (`Pop`)
 that the real engine produced (GUIDE rule 8), and has to reproduce what each of them did.
@@ -16,7 +20,13 @@ namespace HappyModel.C06
 theorem upd_other {β} (f : Nat → β) (i j : Nat) (x : β) (h : j ≠ i) : upd f i x j = f j := by
   simp [upd, h]
 
-/-- the six fault kinds of `happysimulator/faults` -/
+/-- nodes of network `k` are `k * STRIDE … k * STRIDE + n - 1` -/
+def STRIDE : Nat := 1000
+def vid (k a : Nat) : Nat := a + k * STRIDE
+def netOf (v : Nat) : Nat := v / STRIDE
+
+/-- the six fault kinds of `happysimulator/faults` (members of `A`, `B` and the link ends `a`, `b`
+    are nodes of the targeted network) -/
 inductive Kind where
   | crash (e : Nat)                       -- CrashNode
   | pause (e : Nat)                       -- PauseNode
@@ -25,6 +35,10 @@ inductive Kind where
   | loss (a b x : Nat)                    -- InjectPacketLoss on link a→b, +x/1024
   | cap (num den : Nat)                   -- ReduceCapacity, factor num/den
 deriving Repr, DecidableEq
+
+def isPartK : Kind → Bool
+  | .part .. => true
+  | _ => false
 
 /-- one window: a scheduled fault with its window `[s, r)` (`r = none`: permanent) and whether its
     handle is cancelled before the run starts — or (`manual`) a partition created by a direct call of
@@ -36,6 +50,9 @@ structure Fault where
   r : Option Nat
   cancelled : Bool
   manual : Bool := false
+  /-- the network the fault resolves to (`network_name`, or the first registered one); for a manual
+      partition: the `Network` object the call is made on -/
+  net : Nat := 0
 deriving Repr, DecidableEq
 
 /-- one instruction of a generator handler; every `sleep`/`emit`/`wait`/`acq` is one `yield` -/
@@ -54,8 +71,9 @@ structure Job where
 deriving Repr
 
 structure Probe where
-  a : Nat
-  b : Nat
+  a : Nat         -- source worker
+  b : Nat         -- destination worker
+  net : Nat := 0  -- the network it is sent through
 deriving Repr
 
 /-- configured settings of one directed link -/
@@ -68,6 +86,7 @@ deriving Repr
 
 structure Case where
   n : Nat := 0
+  nets : Nat := 1
   cap : Nat := 1
   links : List Link := []
   faults : List Fault := []
@@ -89,15 +108,31 @@ def Case.baseLoss (c : Case) (a b : Nat) : Nat :=
 def Case.initCanc (c : Case) : List Nat :=
   (List.range c.faults.length).filter fun f => ((c.faults[f]?).map (·.cancelled)).getD false
 
+/-- window `f` of the plan is a partition of network `k` -/
+def partOnF (fs : List Fault) (k f : Nat) : Bool :=
+  match fs[f]? with
+  | some ft => isPartK ft.kind && ft.net == k
+  | none => false
+
+def Case.partOn (c : Case) (k f : Nat) : Bool := partOnF c.faults k f
+
+/-- every partition of the plan names nodes of the network it resolves to (the harness builds the
+    node ids from the network: `vid`) -/
+def netWF (fs : List Fault) : Bool :=
+  fs.all fun ft =>
+    match ft.kind with
+    | .part _ A B => (A ++ B).all fun x => netOf x == ft.net
+    | _ => true
+
 def Case.job (c : Case) (j : Nat) : Job := c.jobs.getD j ⟨0, []⟩
-def Case.probe (c : Case) (p : Nat) : Probe := c.probes.getD p ⟨0, 0⟩
+def Case.probe (c : Case) (p : Nat) : Probe := c.probes.getD p ⟨0, 0, 0⟩
 
 /-- one processed event of the real run, in processing order -/
 inductive Pop where
   | fault (t fid : Nat) (act : Bool)   -- activation / deactivation event of fault `fid`; for a manual
                                        -- partition: the `Network.partition()` / a `Partition.heal()` call
   | cancel (t fid : Nat)               -- harness event that calls `FaultHandle.cancel`
-  | healall (t : Nat)                  -- harness event that calls `Network.heal_partition()`
+  | healall (t k : Nat)                -- harness event that calls `heal_partition()` on network `k`
   | job (t j : Nat) (cont : Bool)      -- arrival (`cont = false`) or continuation of job `j`
   | sink (t j k : Nat)                 -- the emission of op `k` of job `j` reaches the sink
   | nsend (t p : Nat)                  -- probe `p` reaches the Network entity
@@ -106,7 +141,7 @@ inductive Pop where
 deriving Repr, DecidableEq
 
 def Pop.time : Pop → Nat
-  | .fault t _ _ | .cancel t _ | .healall t | .job t _ _ | .sink t _ _ | .nsend t _ | .nhop t _ | .recv t _ => t
+  | .fault t _ _ | .cancel t _ | .healall t _ | .job t _ _ | .sink t _ _ | .nsend t _ | .nhop t _ | .recv t _ => t
 
 /-- scale of capacities and loss rates in transcripts -/
 def SC : Nat := 1024
